@@ -20,6 +20,7 @@ import (
 	"math/rand"
 	"os"
 	"path/filepath"
+	"runtime"
 	"sort"
 	"strings"
 	"sync"
@@ -31,7 +32,7 @@ import (
 	"github.com/LemoFoundationLtd/lemochain-core/common"
 )
 
-func init() { subs["c18"] = c18 }
+func init() { subs["c18"] = c18; subs["c18-stress"] = c18stress }
 
 // ---------------------------------------------------------------- labelled transactions
 
@@ -50,13 +51,21 @@ func (t *ltx) keys() []int {
 	return ks
 }
 
+// spec: the op-line form of a tx. Expirations are read back from the real objects (tx.Expiration(), and
+// for a box from the sub txs that types.GetBox decodes out of its data), not from the generator's intent.
 func (t *ltx) spec() string {
 	if t == nil {
 		return "nil"
 	}
-	s := fmt.Sprintf("%d:%d", t.label, t.exp)
-	for _, x := range t.subs {
-		s += fmt.Sprintf(":%d:%d", x.label, x.exp)
+	s := fmt.Sprintf("%d:%d", t.label, t.tx.Expiration())
+	if len(t.subs) > 0 {
+		b, err := types.GetBox(t.tx.Data())
+		if err != nil || len(b.SubTxList) != len(t.subs) {
+			panic("c18 harness: box does not decode")
+		}
+		for i, x := range t.subs {
+			s += fmt.Sprintf(":%d:%d", x.label, b.SubTxList[i].Expiration())
+		}
 	}
 	return s
 }
@@ -85,10 +94,11 @@ func overlap(a, b *ltx) bool {
 }
 
 type c18gen struct {
-	c      *Ctx
-	byHash map[common.Hash]*ltx
-	next   int
-	mu     sync.Mutex
+	c           *Ctx
+	byHash      map[common.Hash]*ltx
+	next        int
+	mu          sync.Mutex
+	sizeChecked bool // GetTxs(0, -1) does not panic: size is validated before the allocation
 }
 
 var c18from = common.BigToAddress(big.NewInt(0xC18))
@@ -511,11 +521,24 @@ func (r *c18run) opGet(time uint32, size int) {
 		txs := r.pool.GetTxs(time, size)
 		var s string
 		got, s = r.g.labels(txs)
+		// the result must be the caller's own slice: overwrite it; if it aliased pool.txs the state dump
+		// that follows (slots) would show cleared slots and diverge from the model
+		for i := range txs {
+			txs[i] = nil
+		}
+		if cap(txs) > 1<<20 {
+			r.fail("c18/get-alloc-before-size-check", fmt.Sprintf("GetTxs(%d, %d) reserved capacity %d for a pool of a few slots", time, size, cap(txs)))
+		}
 		return "txs " + s
 	})
 	switch {
 	case res == "panic":
-		r.c.Count("get:negative-size(panic before the lock; only reachable through the RPC layer)")
+		r.c.Count("get:panic")
+		r.fail("c18/get-alloc-before-size-check", fmt.Sprintf("GetTxs(%d, %d) panics (make([]*Transaction, 0, size) before the `size <= 0` test) instead of returning an empty list; size comes from the RPC GetPendingTx", time, size))
+	case size < 0:
+		r.c.Count("get:negative-size")
+	case size > 1<<40:
+		r.c.Count("get:huge-size")
 	case size == 0:
 		r.c.Count("get:size0")
 	case len(got) >= size:
@@ -606,6 +629,11 @@ func (g *c18gen) episodeSmall() {
 	u := g.smallUniverse(true)
 	times := []uint32{0, 5, 6, 10, 11, 12, 21, 2000}
 	sizes := []int{-1, 0, 1, 2, 3, 100, 100, 100}
+	if g.sizeChecked {
+		// only when GetTxs validates size before allocating (probed once): on the code before commit
+		// 6d2038c these would reserve memory proportional to size
+		sizes = append(sizes, -1<<62, 1<<62, 1<<45+1)
+	}
 	n := 15 + rnd.Intn(45)
 	for i := 0; i < n; i++ {
 		switch x := rnd.Intn(20); {
@@ -694,10 +722,11 @@ func (g *c18gen) episodeBulk() {
 // ---------------------------------------------------------------- fork switches via the real onCurrentChanged
 
 type c18block struct {
-	b      *types.Block
-	parent *c18block
-	txs    []*ltx
-	height uint32
+	b       *types.Block
+	parent  *c18block
+	txs     []*ltx
+	height  uint32
+	unsaved bool // never given to TxGuard.SaveBlock
 }
 
 func (g *c18gen) episodeFork() {
@@ -713,7 +742,13 @@ func (g *c18gen) episodeFork() {
 			h.Time = 100 + h.Height
 		}
 		blk := &c18block{b: types.NewBlock(h, realTxs(txs), nil), parent: parent, txs: txs, height: h.Height}
-		guard.SaveBlock(blk.b)
+		// now and then a block the guard never saw (expired from it / not yet saved): GetTxsByBranch then
+		// fails and onCurrentChanged logs the error and goes on with two nil lists (generator reach 4)
+		if parent != nil && rnd.Intn(12) == 0 {
+			blk.unsaved = true
+		} else {
+			guard.SaveBlock(blk.b)
+		}
 		return blk
 	}
 	branchTxs := func(b *c18block) []*ltx {
@@ -786,7 +821,20 @@ func (g *c18gen) episodeFork() {
 		}
 		var op string
 		grow := next.parent == current
-		if grow {
+		guardErr := false
+		if !grow {
+			for _, x := range append(append([]*c18block{}, oldB...), newB...) {
+				if x.unsaved {
+					guardErr = true
+				}
+			}
+		}
+		if guardErr {
+			// GetTxsByBranch returns (nil, nil, err); the error is only logged: AddTxs(nil); DelTxs(nil)
+			oldTxs, newTxs = nil, nil
+			op = "fork /"
+			r.c.Count("fork:guard-error-ignored(pool left unchanged while the head switches)")
+		} else if grow {
 			op = strings.TrimSpace("del " + specs(next.txs))
 			r.c.Count("fork:grow")
 		} else {
@@ -803,6 +851,7 @@ func (g *c18gen) episodeFork() {
 		r.log = append(r.log, op)
 		d, f1 := r.dump()
 		r.c.Op(op, res+" ; "+d)
+		r.checkIndex("after `" + op + "`")
 		// oracle for the fork-switch clause
 		in1 := map[int]bool{}
 		for _, t := range f1 {
@@ -915,124 +964,304 @@ func isRWCall(e ast.Expr, recv string) (string, bool) {
 	return sel.Sel.Name, true
 }
 
+// lockFacts: go/ast scan. Emits, for every exported method M of *TxPool (all non-test, non-verif files of the
+// package):  `lock M <bool>`   M takes the EXCLUSIVE lock (`recv.RW.Lock()`; RLock is rejected: GetTxs writes, and
+//                              an RLock'ed reader next to a writer is only safe if it never writes) immediately
+//                              followed by `defer recv.RW.Unlock()`, nothing before it mentions the receiver, and
+//                              the body has exactly these two lock calls, no `go` statement, no closure;
+//                              `escape M <bool>` M returns, or copies into a local / another variable, a slice-
+//                              or map-typed field of the receiver (txs, hashIndexMap), possibly re-sliced;
+// once: `helpers <bool>`       every UNEXPORTED method of *TxPool and every plain function of the package files
+//                              that define TxPool methods is free of lock calls, `go` statements and closures;
+//       `foreignlock <bool>`   some file outside the package (non-test) selects `.RW` on an expression whose
+//                              static name suggests the pool (txPool / pool / TxPool()).
 func (g *c18gen) lockFacts() {
 	c := g.c
 	repo := os.Getenv("VERIF_REPO")
 	if repo == "" {
 		repo = "/repo"
 	}
-	path := filepath.Join(repo, "chain", "txpool", "tx_pool.go")
+	dir := filepath.Join(repo, "chain", "txpool")
 	fset := token.NewFileSet()
-	f, err := parser.ParseFile(fset, path, nil, 0)
+	entries, err := os.ReadDir(dir)
 	if err != nil {
 		c.Op("lock <parse> false", "ok")
-		c.Fail("c18/lock-discipline", "cannot parse "+path+": "+err.Error(), nil)
+		c.Fail("c18/lock-discipline", "cannot read "+dir+": "+err.Error(), nil)
 		return
 	}
+	type fact struct{ locked, escapes bool }
+	facts := map[string]fact{}
 	var names []string
-	facts := map[string][2]bool{}
-	for _, d := range f.Decls {
-		fd, ok := d.(*ast.FuncDecl)
-		if !ok || fd.Recv == nil || len(fd.Recv.List) != 1 || !fd.Name.IsExported() || fd.Body == nil {
+	helpersOK := true
+	helperDetail := ""
+	for _, e := range entries {
+		n := e.Name()
+		if !strings.HasSuffix(n, ".go") || strings.HasSuffix(n, "_test.go") || strings.HasPrefix(n, "verif_") {
 			continue
 		}
-		st, ok := fd.Recv.List[0].Type.(*ast.StarExpr)
-		if !ok {
-			continue
+		f, err := parser.ParseFile(fset, filepath.Join(dir, n), nil, 0)
+		if err != nil {
+			c.Op("lock <parse> false", "ok")
+			c.Fail("c18/lock-discipline", "cannot parse "+n+": "+err.Error(), nil)
+			return
 		}
-		if id, ok := st.X.(*ast.Ident); !ok || id.Name != "TxPool" {
-			continue
+		fileHasPoolMethod := false
+		var plain []*ast.FuncDecl
+		for _, d := range f.Decls {
+			fd, ok := d.(*ast.FuncDecl)
+			if !ok || fd.Body == nil {
+				continue
+			}
+			if fd.Recv == nil {
+				plain = append(plain, fd)
+				continue
+			}
+			if len(fd.Recv.List) != 1 {
+				continue
+			}
+			st, ok := fd.Recv.List[0].Type.(*ast.StarExpr)
+			var tn string
+			if ok {
+				if id, ok := st.X.(*ast.Ident); ok {
+					tn = id.Name
+				}
+			} else if id, ok := fd.Recv.List[0].Type.(*ast.Ident); ok {
+				tn = id.Name
+			}
+			if tn != "TxPool" {
+				continue
+			}
+			fileHasPoolMethod = true
+			recv := "_"
+			if len(fd.Recv.List[0].Names) == 1 {
+				recv = fd.Recv.List[0].Names[0].Name
+			}
+			if !fd.Name.IsExported() {
+				if why := c18HelperClean(fd, recv); why != "" {
+					helpersOK = false
+					helperDetail += fd.Name.Name + ": " + why + "; "
+				}
+				continue
+			}
+			facts[fd.Name.Name] = fact{c18Locked(fd, recv), c18Escapes(fd, recv)}
+			names = append(names, fd.Name.Name)
 		}
-		recv := "_"
-		if len(fd.Recv.List[0].Names) == 1 {
-			recv = fd.Recv.List[0].Names[0].Name
-		}
-		// (a) there is a top-level `recv.RW.Lock()` (or RLock) immediately followed by the matching
-		//     deferred unlock; (b) nothing before it mentions the receiver; (c) no other lock/unlock
-		//     call, no `go` statement, no function literal anywhere in the body.
-		locked := false
-		L := -1
-		for i, s := range fd.Body.List {
-			if es, ok := s.(*ast.ExprStmt); ok {
-				if m, ok := isRWCall(es.X, recv); ok && (m == "Lock" || m == "RLock") {
-					if i+1 < len(fd.Body.List) {
-						if ds, ok := fd.Body.List[i+1].(*ast.DeferStmt); ok {
-							want := map[string]string{"Lock": "Unlock", "RLock": "RUnlock"}[m]
-							if u, ok := isRWCall(ds.Call, recv); ok && u == want {
-								L = i
-							}
-						}
-					}
-					break
+		if fileHasPoolMethod {
+			for _, fd := range plain {
+				if why := c18HelperClean(fd, ""); why != "" {
+					helpersOK = false
+					helperDetail += fd.Name.Name + ": " + why + "; "
 				}
 			}
-			if mentions(s, recv) {
-				break
-			}
 		}
-		if L >= 0 {
-			locked = true
-			calls := 0
-			ast.Inspect(fd.Body, func(x ast.Node) bool {
-				switch v := x.(type) {
-				case *ast.GoStmt, *ast.FuncLit:
-					locked = false
-				case *ast.CallExpr:
-					if _, ok := isRWCall(v, recv); ok {
-						calls++
-					}
-				}
-				return true
-			})
-			if calls != 2 {
-				locked = false
-			}
-		}
-		// escape: a return value that is a field of the receiver (or a slice of it)
-		escapes := false
-		ast.Inspect(fd.Body, func(x ast.Node) bool {
-			ret, ok := x.(*ast.ReturnStmt)
-			if !ok {
-				return true
-			}
-			for _, e := range ret.Results {
-				inner := e
-				if se, ok := inner.(*ast.SliceExpr); ok {
-					inner = se.X
-				}
-				if ue, ok := inner.(*ast.UnaryExpr); ok && ue.Op == token.AND {
-					inner = ue.X
-				}
-				if sel, ok := inner.(*ast.SelectorExpr); ok {
-					if id, ok := sel.X.(*ast.Ident); ok && id.Name == recv {
-						escapes = true
-					}
-				}
-			}
-			return true
-		})
-		names = append(names, fd.Name.Name)
-		facts[fd.Name.Name] = [2]bool{locked, escapes}
 	}
 	sort.Strings(names)
 	for _, want := range []string{"AddTx", "AddTxs", "DelTxs", "GetTxs", "IsEmpty"} {
 		if _, ok := facts[want]; !ok {
 			c.Op("lock "+want+" false", "ok")
-			c.Fail("c18/lock-discipline", "exported method "+want+" of *TxPool not found in tx_pool.go", nil)
+			c.Fail("c18/lock-discipline", "exported method "+want+" of *TxPool not found in package chain/txpool", nil)
 		}
 	}
 	for _, n := range names {
 		fa := facts[n]
-		c.Op(fmt.Sprintf("lock %s %v", n, fa[0]), "ok")
-		c.Op(fmt.Sprintf("escape %s %v", n, fa[1]), "ok")
-		c.Count(fmt.Sprintf("lockfact:%s:%v", n, fa[0]))
-		if !fa[0] {
-			c.Fail("c18/lock-discipline", "exported method "+n+" of *TxPool does not hold pool.RW around every access of the pool (go/ast scan of "+path+")", nil)
+		c.Op(fmt.Sprintf("lock %s %v", n, fa.locked), "ok")
+		c.Op(fmt.Sprintf("escape %s %v", n, fa.escapes), "ok")
+		c.Count(fmt.Sprintf("lockfact:%s:%v", n, fa.locked))
+		if !fa.locked {
+			c.Fail("c18/lock-discipline", "exported method "+n+" of *TxPool does not hold the exclusive pool.RW lock around every access of the pool (go/ast scan of "+dir+")", nil)
 		}
-		if fa[1] {
-			c.Fail("c18/lock-discipline", "exported method "+n+" of *TxPool returns a field of the pool (escapes the lock)", nil)
+		if fa.escapes {
+			c.Fail("c18/lock-discipline", "exported method "+n+" of *TxPool returns or aliases a slice/map field of the pool (escapes the lock)", nil)
 		}
 	}
+	c.Op(fmt.Sprintf("helpers %v", helpersOK), "ok")
+	c.Count(fmt.Sprintf("lockfact:helpers:%v", helpersOK))
+	if !helpersOK {
+		c.Fail("c18/lock-discipline", "an unexported helper of the tx pool touches the lock, starts a goroutine or builds a closure: "+helperDetail, nil)
+	}
+	// users of TxPool.RW outside the package
+	foreign := ""
+	filepath.Walk(repo, func(path string, info os.FileInfo, err error) error {
+		if err != nil {
+			return nil
+		}
+		if info.IsDir() {
+			if info.Name() == ".git" || info.Name() == "vendor" || path == dir {
+				return filepath.SkipDir
+			}
+			return nil
+		}
+		if !strings.HasSuffix(path, ".go") || strings.HasSuffix(path, "_test.go") {
+			return nil
+		}
+		src, err := os.ReadFile(path)
+		if err != nil || !strings.Contains(string(src), ".RW") {
+			return nil
+		}
+		f, err := parser.ParseFile(token.NewFileSet(), path, src, 0)
+		if err != nil {
+			return nil
+		}
+		ast.Inspect(f, func(x ast.Node) bool {
+			sel, ok := x.(*ast.SelectorExpr)
+			if !ok || sel.Sel.Name != "RW" {
+				return true
+			}
+			var b strings.Builder
+			ast.Inspect(sel.X, func(y ast.Node) bool {
+				if id, ok := y.(*ast.Ident); ok {
+					b.WriteString(id.Name + " ")
+				}
+				return true
+			})
+			low := strings.ToLower(b.String())
+			if strings.Contains(low, "txpool") || strings.HasPrefix(low, "pool ") {
+				rel, _ := filepath.Rel(repo, path)
+				foreign += rel + " "
+			}
+			return true
+		})
+		return nil
+	})
+	c.Op(fmt.Sprintf("foreignlock %v", foreign != ""), "ok")
+	c.Count(fmt.Sprintf("lockfact:foreignlock:%v", foreign != ""))
+	if foreign != "" {
+		c.Fail("c18/lock-discipline", "TxPool.RW is used outside package txpool: "+foreign, nil)
+	}
+}
+
+// c18Locked: see lockFacts
+func c18Locked(fd *ast.FuncDecl, recv string) bool {
+	L := -1
+	for i, s := range fd.Body.List {
+		if es, ok := s.(*ast.ExprStmt); ok {
+			if m, ok := isRWCall(es.X, recv); ok {
+				if m == "Lock" && i+1 < len(fd.Body.List) {
+					if ds, ok := fd.Body.List[i+1].(*ast.DeferStmt); ok {
+						if u, ok := isRWCall(ds.Call, recv); ok && u == "Unlock" {
+							L = i
+						}
+					}
+				}
+				break
+			}
+		}
+		if mentions(s, recv) {
+			break
+		}
+	}
+	if L < 0 {
+		return false
+	}
+	ok := true
+	calls := 0
+	ast.Inspect(fd.Body, func(x ast.Node) bool {
+		switch v := x.(type) {
+		case *ast.GoStmt, *ast.FuncLit:
+			ok = false
+		case *ast.CallExpr:
+			if _, is := isRWCall(v, recv); is {
+				calls++
+			}
+		case *ast.SelectorExpr:
+			// any other use of recv.RW (passing it around, RLocker(), ...)
+			if v.Sel.Name == "RW" {
+				if id, is := v.X.(*ast.Ident); is && id.Name == recv {
+					calls += 0
+				}
+			}
+		}
+		return true
+	})
+	rwUses := 0
+	ast.Inspect(fd.Body, func(x ast.Node) bool {
+		if v, is := x.(*ast.SelectorExpr); is && v.Sel.Name == "RW" {
+			rwUses++
+		}
+		return true
+	})
+	return ok && calls == 2 && rwUses == 2
+}
+
+func c18FieldOfRecv(e ast.Expr, recv string) bool {
+	for {
+		switch v := e.(type) {
+		case *ast.SliceExpr:
+			e = v.X
+			continue
+		case *ast.ParenExpr:
+			e = v.X
+			continue
+		case *ast.UnaryExpr:
+			if v.Op == token.AND {
+				e = v.X
+				continue
+			}
+		}
+		break
+	}
+	if sel, ok := e.(*ast.SelectorExpr); ok {
+		if id, ok := sel.X.(*ast.Ident); ok && id.Name == recv && (sel.Sel.Name == "txs" || sel.Sel.Name == "hashIndexMap") {
+			return true
+		}
+	}
+	return false
+}
+
+// c18Escapes: a return value, or the right-hand side of an assignment / var declaration whose left-hand side is
+// not the same receiver field, is a slice/map field of the receiver (possibly re-sliced or address-taken)
+func c18Escapes(fd *ast.FuncDecl, recv string) bool {
+	esc := false
+	ast.Inspect(fd.Body, func(x ast.Node) bool {
+		switch v := x.(type) {
+		case *ast.ReturnStmt:
+			for _, e := range v.Results {
+				if c18FieldOfRecv(e, recv) {
+					esc = true
+				}
+			}
+		case *ast.AssignStmt:
+			for i, e := range v.Rhs {
+				if !c18FieldOfRecv(e, recv) {
+					continue
+				}
+				if i < len(v.Lhs) && c18FieldOfRecv(v.Lhs[i], recv) {
+					continue
+				}
+				esc = true
+			}
+		case *ast.ValueSpec:
+			for _, e := range v.Values {
+				if c18FieldOfRecv(e, recv) {
+					esc = true
+				}
+			}
+		}
+		return true
+	})
+	return esc
+}
+
+// c18HelperClean: "" if the function body has no lock call, no go statement, no closure
+func c18HelperClean(fd *ast.FuncDecl, recv string) string {
+	why := ""
+	ast.Inspect(fd.Body, func(x ast.Node) bool {
+		switch v := x.(type) {
+		case *ast.GoStmt:
+			why = "go statement"
+		case *ast.FuncLit:
+			why = "closure"
+		case *ast.SelectorExpr:
+			if v.Sel.Name == "RW" {
+				why = "touches RW"
+			}
+		}
+		return true
+	})
+	if recv != "" && c18Escapes(fd, recv) {
+		why = "aliases a pool field"
+	}
+	return why
 }
 
 // ---------------------------------------------------------------- concurrent stress (supporting evidence)
@@ -1268,6 +1497,64 @@ func (g *c18gen) stress(rounds, workers, opsPer int) {
 	}
 }
 
+// ---------------------------------------------------------------- serialised goroutine rounds (compared with the model)
+
+// episodeSerialised: several goroutines issue random calls (the heavy-overlap small universe, guard-violating
+// deletes included) against ONE pool; each call is made while holding the harness' own mutex, so the order in
+// the op log is the real order and every line is compared with the Lean model like any other op. What this
+// adds to the sequential episodes: the calls come from different goroutines (state handed over between OS
+// threads only through the pool's own and the harness' mutex). Scheduling is not reproducible from the seed;
+// the replay of a failure is the op log itself.
+func (g *c18gen) episodeSerialised(workers, opsPer int) {
+	r := newC18run(g, "serialised")
+	u := g.smallUniverse(true)
+	var mu sync.Mutex
+	var wg sync.WaitGroup
+	seeds := make([]int64, workers)
+	for i := range seeds {
+		seeds[i] = g.c.Rnd.Int63()
+	}
+	times := []uint32{0, 5, 10, 11, 21, 2000}
+	sizes := []int{0, 1, 2, 3, 100, 100}
+	for w := 0; w < workers; w++ {
+		wg.Add(1)
+		go func(w int) {
+			defer wg.Done()
+			rnd := rand.New(rand.NewSource(seeds[w]))
+			pick := func() *ltx { return u.all[rnd.Intn(len(u.all))] }
+			some := func(max int) []*ltx {
+				var ts []*ltx
+				for i := rnd.Intn(max + 1); i > 0; i-- {
+					ts = append(ts, pick())
+				}
+				return ts
+			}
+			for i := 0; i < opsPer; i++ {
+				x := rnd.Intn(20)
+				a, b := pick(), some(3)
+				t, sz := times[rnd.Intn(len(times))], sizes[rnd.Intn(len(sizes))]
+				mu.Lock()
+				switch {
+				case x < 7:
+					r.opAdd(a)
+				case x < 10:
+					r.opAdds(b)
+				case x < 15:
+					r.opDel(b)
+				case x < 19:
+					r.opGet(t, sz)
+				default:
+					r.opEmpty()
+				}
+				r.c.Count("serialised:ops")
+				mu.Unlock()
+				runtime.Gosched()
+			}
+		}(w)
+	}
+	wg.Wait()
+}
+
 // ---------------------------------------------------------------- entry
 
 func c18(c *Ctx) {
@@ -1279,6 +1566,7 @@ func c18(c *Ctx) {
 		c.Op("mode asis", "ok")
 	}
 	g.lockFacts()
+	g.sizeChecked = Safe(func() string { txpool.NewTxPool().GetTxs(0, -1); return "ok" }) == "ok"
 	// directed: the minimal witness of the delTx(box) defect repaired by /repo commit 85d2f65 (also the
 	// Lean refutation witness for the code before that commit); must be silent on the repaired code
 	{
@@ -1348,8 +1636,19 @@ func c18(c *Ctx) {
 		}
 	}
 	if c.Tier == "thorough" {
+		for i := 0; i < 10; i++ {
+			g.episodeSerialised(6, 60)
+		}
 		g.stress(12, 8, 1500)
+		c18Race(c) // the same stress built with -race, as a child process
 	} else {
+		g.episodeSerialised(4, 40)
 		g.stress(3, 8, 400)
 	}
+}
+
+// c18stress: the goroutine stress alone (sub-command of the -race child)
+func c18stress(c *Ctx) {
+	g := &c18gen{c: c, byHash: map[common.Hash]*ltx{}}
+	g.stress(c.N, 8, 1500)
 }
